@@ -312,7 +312,7 @@ pub fn gen_schedule(rng: &mut Rng, input: &str, knobs: SchedKnobs) -> Schedule {
             };
             let mut remove = vec![];
             if knobs.allow_script_dom && rng.chance(1, 2) {
-                for _ in 0..rng.range(1, 2) {
+                for _ in 0..rng.range(1, 3) {
                     remove.push(rng.below(1 << 20) as u32);
                 }
             }
